@@ -252,6 +252,14 @@ class FnTaint:
                     i = v.get("init")
                     while i is not None and i.get("k") == "Cast":
                         i = i["e"]
+                    j_ = i
+                    while j_ is not None and j_.get("k") in ("Construct", "Cast", "ImplicitCast") and (j_.get("k") != "Construct" or (len(j_.get("args", [])) == 1 and (j_.get("copy") or j_.get("move")))):
+                        j_ = j_["e"] if j_.get("k") != "Construct" else j_["args"][0]
+                    if j_ is not None and j_.get("k") == "Call" and ("vector" in (v.get("t") or "") or "Vector" in (v.get("t") or "")) and not (j_.get("callee") or "").startswith("std::"):
+                        # a vector returned by a helper of the program: how it is sized is the helper's business; a rule that
+                        # works function by function cannot tell whether an index into it is covered by its size
+                        self.unknown_sized = getattr(self, "unknown_sized", {})
+                        self.unknown_sized[v["id"]] = (v["name"], j_.get("callee"), ir.locstr(v))
                     if i is not None and i.get("k") == "Construct" and ("vector" in i.get("t", "") or "Vector" in i.get("t", "")):
                         inner = i
                         while inner.get("k") in ("Construct", "Cast") and ((inner.get("k") == "Cast") or (len(inner.get("args", [])) == 1 and inner["args"][0].get("k") in ("Construct", "Cast"))):
@@ -284,6 +292,9 @@ class FnTaint:
 
         def exempt(vid, node):
             c = self.container_of(node) if node.get("k") in ("Index", "OpCall") else None
+            if c is not None and c in getattr(self, "unknown_sized", {}):
+                nm, cal, at = self.unknown_sized[c]
+                raise ir.AnalysisBroken("the vector `%s` indexed at %s is sized inside %s (declared at %s): whether the parameter-derived index is covered by its size cannot be decided function by function" % (nm, ir.locstr(node), cal, at))
             if c is None or c not in croots:
                 return False
             return self.param_roots(vid, self.line_of(node) + 1) <= croots[c]
